@@ -91,6 +91,13 @@ func parseChanInv(rest, file string, line int, pkg string) (*ChanInvDecl, error)
 	return d, nil
 }
 
+// AtCall: an assertion over the caller's variables checked immediately
+// before every call whose callee name contains Callee.
+type AtCall struct {
+	Callee string
+	Pred   *Clause
+}
+
 type LoopSpec struct {
 	Invariants []*Clause
 	Assigns    []string
@@ -120,6 +127,8 @@ type Contract struct {
 	IsIface  bool
 	Lets     []*Clause // let name = expr (evaluated at entry)
 	ChanInvs []*ChanInvDecl
+	AtCalls  []*AtCall // assertions checked at call sites inside the function
+	Semaphores []string // channel expressions (params / receiver fields) used as counting semaphores
 	Notes    []string
 }
 
@@ -130,6 +139,7 @@ type PkgSpec struct {
 	GlobalInvs []*Clause
 	TypeInvs   map[string][]*Clause // type name -> invariants over `self`
 	TypeChanInvs map[string][]*ChanInvDecl // type name -> channel invariants of fields (ChanSrc = field name)
+	TypeSemaphores map[string][]string     // type name -> fields holding counting-semaphore channels
 	File       string
 }
 
@@ -182,7 +192,7 @@ func loadPkgSpec(path, pkgPath string) (*PkgSpec, error) {
 		return nil, err
 	}
 	defer f.Close()
-	ps := &PkgSpec{Pkg: pkgPath, Dir: filepath.Dir(path), Contracts: map[string]*Contract{}, TypeInvs: map[string][]*Clause{}, TypeChanInvs: map[string][]*ChanInvDecl{}, File: path}
+	ps := &PkgSpec{Pkg: pkgPath, Dir: filepath.Dir(path), Contracts: map[string]*Contract{}, TypeInvs: map[string][]*Clause{}, TypeChanInvs: map[string][]*ChanInvDecl{}, TypeSemaphores: map[string][]string{}, File: path}
 	sc := bufio.NewScanner(f)
 	sc.Buffer(make([]byte, 1<<20), 1<<20)
 	var cur *Contract
@@ -236,6 +246,11 @@ func loadPkgSpec(path, pkgPath string) (*PkgSpec, error) {
 		if word == "type" {
 			// type T invariant [label] expr
 			parts := strings.SplitN(rest, " ", 3)
+			if len(parts) == 3 && parts[1] == "semaphore" {
+				ps.TypeSemaphores[parts[0]] = append(ps.TypeSemaphores[parts[0]], strings.TrimSpace(parts[2]))
+				cur = nil
+				continue
+			}
 			if len(parts) == 3 && parts[1] == "chaninv" {
 				d, err := parseChanInv(parts[2], path, ln.n, pkgPath)
 				if err != nil {
@@ -312,6 +327,18 @@ func loadPkgSpec(path, pkgPath string) (*PkgSpec, error) {
 			default:
 				return nil, fmt.Errorf("%s:%d: unknown loop clause %s", path, ln.n, parts[1])
 			}
+		case "semaphore":
+			cur.Semaphores = append(cur.Semaphores, rest)
+		case "at-call":
+			i := strings.IndexAny(rest, " \t")
+			if i < 0 {
+				return nil, fmt.Errorf("%s:%d: bad at-call", path, ln.n)
+			}
+			c, err := parseClause(rest[i+1:], path, ln.n)
+			if err != nil {
+				return nil, err
+			}
+			cur.AtCalls = append(cur.AtCalls, &AtCall{Callee: rest[:i], Pred: c})
 		case "chaninv":
 			d, err := parseChanInv(rest, path, ln.n, pkgPath)
 			if err != nil {
